@@ -3,6 +3,7 @@ import Rare.Proofs.C10Tree
 import Rare.Proofs.C10State
 import Rare.Proofs.C10Src
 import Rare.Proofs.C10Fold
+import Rare.Proofs.C10Conc
 import Rare.Gen.C10
 /-!
 # C10 — optimisation and user-defined functions never change an expression's value
@@ -610,6 +611,138 @@ theorem control_skeletons_are_source :
     Gen.C10.joinStagesCtl = ["if:len(s.stages)==0{", "return:stageLiteral(\"\")", "}", "if:len(s.stages)==1{", "return:s.stages[0]", "}", "return:KeyBuilderStage(func(contextKeyBuilderContext)string{varsbstrings.Builderfor_,stage:=ranges.stages{sb.WriteString(stage(context))}returnsb.String()})"] ∧
     Gen.C10.keyBuilderToFunctionCtl = ["return:func(args[]expressions.KeyBuilderStage)(expressions.KeyBuilderStage,error){ctxPool:=slicepool.NewObjectPoolEx(5,func()*lazySubContext{return&lazySubContext{args:args,}})returnfunc(kbcexpressions.KeyBuilderContext)string{subCtx:=ctxPool.Get()deferctxPool.Return(subCtx)subCtx.sub=kbcreturnstage.BuildKey(subCtx)},nil}"] := by
   exact ⟨rfl, rfl, rfl, rfl, rfl, rfl, rfl⟩
+
+/-! ## Several workers on one compiled expression (`Model/C10Conc.lean`) -/
+
+/-- **The call-site pool under EVERY schedule.**  Any number of workers evaluate one compiled call `{name args…}` of a
+    funcs-file function, each with its own context `ctxs w`; every atomic action (`ctxPool.Get()`, `subCtx.sub = kbc`,
+    ONE look-up of the body through the pooled object reading `sub` at that moment, the deferred `Return`) of one
+    worker may be followed by any actions of the others (`sched` is an arbitrary list of worker numbers); the pool
+    starts with any distinct objects carrying arbitrary stale `sub` fields.  Then at every moment: no object is
+    checked out by two workers, no checked-out object lies in the free list, the free list has no duplicates, the
+    object a worker evaluates against carries THAT worker's context – and every worker that has returned has
+    returned what the stateless model answers in its own context (`withArgs args body`, which `call_nested_eq_body`
+    equates with the body written inline). -/
+theorem userfn_pool_all_schedules (args : List Stage) (body : Stage) (ctxs : Nat → Ctx) (st : Conc.St) (hs : Conc.Start st)
+    (sched : List Nat) :
+    let st' := Conc.exec true args body ctxs sched st
+    (∀ w w' o, (st'.pcs w).holds = some o → (st'.pcs w').holds = some o → w = w') ∧
+    (∀ w o, (st'.pcs w).holds = some o → o ∉ st'.free) ∧
+    st'.free.Nodup ∧
+    (∀ w o c, st'.pcs w = .run o c → st'.sub o = ctxs w) ∧
+    (∀ w r, st'.pcs w = .done r → r = (withArgs args body).run (ctxs w)) := by
+  have h := Conc.exec_inv (args := args) (body := body) (ctxs := ctxs) sched (Conc.start_inv hs)
+  exact ⟨h.excl, fun w o e => (h.held w o e).2, h.nodup, fun w o c e => (h.run w o c e).1, h.done⟩
+
+/-- **Nobody is starved or blocked.**  The pool never blocks (`Get` makes a new object when none is free), so a
+    worker needs exactly the actions of its own sequential run – `Get`, the store, one per look-up of the body, the
+    answer, `Return` – however the others are interleaved: in every schedule that gives worker `w` that many turns,
+    `w` has returned, with the stateless model's answer. -/
+theorem userfn_pool_every_worker_returns (args : List Stage) (body : Stage) (ctxs : Nat → Ctx) (st : Conc.St)
+    (hs : Conc.Start st) (sched : List Nat) (w : Nat) (hw : Conc.stepsLeft args (ctxs w) body + 3 ≤ sched.count w) :
+    (Conc.exec true args body ctxs sched st).pcs w = .done ((withArgs args body).run (ctxs w)) := by
+  have hi := Conc.start_inv (args := args) (body := body) (ctxs := ctxs) hs
+  have hl := Conc.exec_left w sched hi
+  rw [hs.idle w] at hl
+  have h0 : ((Conc.exec true args body ctxs sched st).pcs w).left args body (ctxs w) = 0 := by
+    rw [hl]; simp only [Conc.Pc.left]; omega
+  obtain ⟨r, hr⟩ := Conc.left_zero h0
+  rw [hr, (Conc.exec_inv sched hi).done w r hr]
+
+/-- A worker that has not returned can always act, and its action moves it on (with or without the store of `sub`). -/
+theorem userfn_pool_never_blocks (install : Bool) (args : List Stage) (body : Stage) (ctxs : Nat → Ctx) (w : Nat) (st : Conc.St)
+    (h : ∀ r, st.pcs w ≠ .done r) : (Conc.step install args body ctxs w st).pcs w ≠ st.pcs w :=
+  Conc.step_progress install args body ctxs w st h
+
+/-- The hypotheses are satisfiable and the machine does what the code does: two workers, the pool holding ONE object with
+    a stale context; worker 0 takes it, worker 1 finds the pool empty and gets a new object (number 1), both look `{0}`
+    up in turn, both return; each has its own line, and both objects are back in the pool (in the order of the
+    `Return`s).  Without the store `subCtx.sub = kbc` worker 0 answers from the stale context. -/
+example :
+    let ctxs : Nat → Ctx := fun w => if w = 0 then toyCtx [1] else toyCtx [2]
+    let st0 : Conc.St := ⟨[0], 1, fun _ => toyCtx [9], fun _ => .idle⟩
+    Conc.Start st0 ∧
+    (match (Conc.exec true [Comp.match_ 0] (Comp.match_ 0) ctxs [0, 1, 0, 1, 1, 0, 1, 0, 1, 0] st0).pcs 0 with
+      | .done r => r = .ok [1] | _ => False) ∧
+    (match (Conc.exec true [Comp.match_ 0] (Comp.match_ 0) ctxs [0, 1, 0, 1, 1, 0, 1, 0, 1, 0] st0).pcs 1 with
+      | .done r => r = .ok [2] | _ => False) ∧
+    (Conc.exec true [Comp.match_ 0] (Comp.match_ 0) ctxs [0, 1, 0, 1, 1, 0, 1, 0, 1, 0] st0).free = [1, 0] ∧
+    (match (Conc.exec false [Comp.match_ 0] (Comp.match_ 0) ctxs [0, 1, 0, 1, 1, 0, 1, 0, 1, 0] st0).pcs 0 with
+      | .done r => r = .ok [9] | _ => False) :=
+  ⟨⟨fun _ => rfl, by simp, by simp⟩, rfl, rfl, rfl, rfl⟩
+
+/-- The two atomic actions of the machine are atomic in the code: `ObjectPool.Get` and `Return` run under the pool's
+    mutex from their first statement to their return; `Get` pops the LAST free object or calls `newer()`, `Return`
+    appends (`Conc.step`: `getLast?`/`dropLast`, `next`, `free ++ [o]`); and the closure's statements come in the
+    machine's order – `Get`, `defer Return`, `subCtx.sub = kbc`, the body. -/
+theorem pool_actions_are_source :
+    Gen.C10.objectPoolGetCtl = ["do:s.m.Lock()", "defer:s.m.Unlock()", "if:len(s.pool)==0{", "return:s.newer()", "}",
+      "stmt:end:=len(s.pool)-1", "stmt:ret=s.pool[end]", "stmt:s.pool=s.pool[:end]", "return:"] ∧
+    Gen.C10.objectPoolReturnCtl = ["do:s.m.Lock()", "defer:s.m.Unlock()", "stmt:s.pool=append(s.pool,obj)"] ∧
+    Gen.C10.keyBuilderToFunctionCtl = ["return:func(args[]expressions.KeyBuilderStage)(expressions.KeyBuilderStage,error){ctxPool:=slicepool.NewObjectPoolEx(5,func()*lazySubContext{return&lazySubContext{args:args,}})returnfunc(kbcexpressions.KeyBuilderContext)string{subCtx:=ctxPool.Get()deferctxPool.Return(subCtx)subCtx.sub=kbcreturnstage.BuildKey(subCtx)},nil}"] :=
+  ⟨rfl, rfl, rfl⟩
+
+/-- **The layout cell under every schedule.**  Any number of workers evaluate one `{time {0}}`-like stage (layout
+    remembered in `atomicFormat`), worker `w` on the date `dates w`; `Load` and `Store` are separate atomic actions and
+    the workers interleave arbitrarily.  Whatever the schedule, an answer is never torn or foreign: it is
+    `<PARSE-ERROR>` for an empty or undetectable date, and otherwise the date parsed by the layout of SOME worker's
+    non-empty date (its own, or one another worker stored first). -/
+theorem time_cache_workers_any_schedule {L : Type} (lib : TimeLib L) (dates : Nat → Bytes) (sched : List Nat) (w : Nat) (v : Bytes)
+    (h : (Conc.texec lib dates sched Conc.TSt.fresh).pcs w = .done v) : Conc.Good lib dates w v :=
+  (Conc.texec_inv sched (Conc.tfresh_inv lib dates)).done w v h
+
+/-- **One log format: every schedule is sequential.**  If all non-empty dates have the same layout (the situation the
+    cache is made for) then under every schedule every worker answers exactly what a sequential evaluation answers –
+    whether it comes first (empty cell) or after others (the cell holds that layout). -/
+theorem time_cache_workers_same_layout {L : Type} (lib : TimeLib L) (dates : Nat → Bytes) (l0 : L)
+    (hl : ∀ w, dates w ≠ [] → lib.detect (dates w) = some l0) (sched : List Nat) (w : Nat) (v : Bytes)
+    (h : (Conc.texec lib dates sched Conc.TSt.fresh).pcs w = .done v) :
+    v = (timeStep .cur lib [] false (dates w) TimeSt.fresh).1 ∧
+    v = (timeStep .cur lib [] false (dates w) ⟨some l0, none⟩).1 := by
+  have hg := time_cache_workers_any_schedule lib dates sched w v h
+  by_cases he : dates w = []
+  · rcases hg with ⟨_, hv⟩ | ⟨_, hv⟩ | ⟨hne, _⟩
+    · simp [timeStep, he, hv]
+    · simp [timeStep, he, hv]
+    · exact absurd he hne
+  · have hdw := hl w he
+    rcases hg with ⟨h1, _⟩ | ⟨h1, _⟩ | ⟨_, w', l, hn, hd, hv⟩
+    · exact absurd h1 he
+    · rw [hdw] at h1; cases h1
+    · have : l = l0 := by have := hl w' hn; rw [hd] at this; exact Option.some.inj this
+      subst this
+      simp [timeStep, he, hv, hdw, TimeSt.fresh]
+
+/-- **… and with two formats it is not, by design** (the code's comment: "may end up run by a few different
+    threads").  Toy library (the layout of a date is its length), worker 0 on `7`, worker 1 on `99`: when both `Load`
+    the empty cell before either `Store`s, each parses its date by its own layout – both succeed; evaluated one after
+    the other, in either order, the second is `<PARSE-ERROR>` (the first one's layout is remembered).  So the answers
+    of this schedule are those of NO sequential order: the concurrency clause of C10 cannot hold for an expression that
+    remembers a layout when the input mixes formats – it holds for every schedule when it does not
+    (`time_cache_workers_same_layout`), and for every stage without memory (`userfn_pool_all_schedules`). -/
+theorem time_cache_two_workers_counterexample :
+    let dates : Nat → Bytes := fun w => if w = 0 then [55] else [57, 57]
+    let both := Conc.texec toyLib dates [0, 1, 0, 1, 0, 1] Conc.TSt.fresh
+    let seq01 := Conc.texec toyLib dates [0, 0, 0, 1, 1, 1] Conc.TSt.fresh
+    let seq10 := Conc.texec toyLib dates [1, 1, 1, 0, 0, 0] Conc.TSt.fresh
+    ((both.pcs 0).answer, (both.pcs 1).answer) = (some [55], some [57, 57]) ∧
+    ((seq01.pcs 0).answer, (seq01.pcs 1).answer) = (some [55], some ErrorParsing) ∧
+    ((seq10.pcs 0).answer, (seq10.pcs 1).answer) = (some ErrorParsing, some [57, 57]) ∧
+    Conc.seqAnswers toyLib [55] [57, 57] = ([55], ErrorParsing) ∧
+    Conc.seqAnswers toyLib [57, 57] [55] = ([57, 57], ErrorParsing) := by
+  decide +kernel
+
+/-- The machine's sequential schedules are the sequential model: worker `a` to the end, then worker `b`, answers what
+    `timeStep .cur` (the closure read from /repo, `time_step_matches_source`) answers on the two dates in that order. -/
+theorem time_cache_sequential_schedule {L : Type} (lib : TimeLib L) (dates : Nat → Bytes) (a b : Nat) (hab : a ≠ b) :
+    let st := Conc.texec lib dates [a, a, a, b, b, b] Conc.TSt.fresh
+    (st.pcs a).answer = some (Conc.seqAnswers lib (dates a) (dates b)).1 ∧
+    (st.pcs b).answer = some (Conc.seqAnswers lib (dates a) (dates b)).2 := by
+  have hba : b ≠ a := Ne.symm hab
+  by_cases ha : dates a = [] <;> by_cases hb : dates b = [] <;>
+    cases hda : lib.detect (dates a) <;> cases hdb : lib.detect (dates b) <;>
+    simp [Conc.texec, Conc.tstep, Conc.TSt.setPc, Conc.TSt.fresh, Conc.TPc.answer, Conc.seqAnswers, timeStep, TimeSt.fresh,
+      ha, hb, hda, hdb, hab, hba]
 
 /-- **The funcs files are loaded after every global output switch is in force** (main.go, `app.Before`): `--nocolor` /
     `--color`, `--noformat`, `--notrim`, `--nounicode`, `--noload` are applied first, then the `--funcs` /
